@@ -156,3 +156,15 @@ Proof.
   exists [PAnn 1%N Leeching 170%N 100%N 5 0 0; PAnn 1%N Leeching 187%N 100%N 5 0 0; PAnn 1%N Stopped 187%N 100%N 5 0 0].
   do 2 eexists. split; [vm_compute; reflexivity|]. vm_compute. discriminate.
 Qed.
+
+(* ---- the tally summed over ALL torrents of a family ----
+   one announce to any torrent moves the family-wide number of stored entries carrying each id
+   exactly as the messages it sends say (id-stable case; the other case is the recorded finding) *)
+Theorem C20_tally_family_announce : forall cap shrink tm hash key st pid until take o1 o2 pm' rep removed q,
+  pmap_inv cap shrink (tm_get hash tm) ->
+  pm_announce cap (tm_get hash tm) key st pid until take o1 o2 = Ok (pm', rep, removed) ->
+  (forall p, removed = Some p -> p_id p = pid) ->
+  tm_pid_count q (tm_set hash pm' tm)
+  = fold_left (msg_delta q) (announce_msgs true st pid removed) (tm_pid_count q tm).
+Proof. exact fam_announce_tally_law. Qed.
+Print Assumptions C20_tally_family_announce.
